@@ -1118,8 +1118,15 @@ returnVal.option() ?: return null
                         .zip(param_input_types.iter())
                         .zip(param_names.iter())
                         .map(|((in_param, in_ty), in_name)| match in_param.ty {
-                            Type::Enum(_) | Type::Struct(_) => {
-                                // named types have a _Native wrapper, this needs to be passed as the "native"
+                            Type::Enum(_) => {
+                                // enums cross the boundary as their Int discriminant (there is no _Native class for them)
+                                (
+                                    format!("{}.fromNative({})", in_ty, in_name),
+                                    format!("{}: Int", in_name),
+                                )
+                            }
+                            Type::Struct(_) => {
+                                // structs have a _Native wrapper, this needs to be passed as the "native"
                                 // version of the argument
                                 (
                                     format!("{}({})", in_ty, in_name),
@@ -1610,8 +1617,15 @@ returnVal.option() ?: return null
                 .zip(param_input_types.iter())
                 .zip(param_names.iter())
                 .map(|((in_param, in_ty), in_name)| match in_param.ty {
-                    Type::Enum(_) | Type::Struct(_) => {
-                        // named types have a _Native wrapper, this needs to be passed as the "native"
+                    Type::Enum(_) => {
+                        // enums cross the boundary as their Int discriminant (there is no _Native class for them)
+                        (
+                            format!("{}.fromNative({})", in_ty, in_name),
+                            format!("{}: Int", in_name),
+                        )
+                    }
+                    Type::Struct(_) => {
+                        // structs have a _Native wrapper, this needs to be passed as the "native"
                         // version of the argument
                         (
                             format!("{}({})", in_ty, in_name),
